@@ -60,6 +60,32 @@ var pendingCorners = []string{
 	"CREATE DATABASE d WITH SHARD DURATION INF", "CREATE DATABASE d WITH DURATION 1h FUTURE LIMIT 0s", "ALTER RETENTION POLICY p ON d PAST LIMIT INF",
 }
 
+// deepCorners: nesting depth, long chains, Unicode case folding of fill/tz, the depth-3 push-back of
+// CREATE CONTINUOUS QUERY in several layouts.
+func deepCorners() []string {
+	out := []string{
+		"SELECT a FROM m f\u0130ll(none)", "SELECT a FROM m F\u0130LL(1)", "SELECT a FROM m t\u212a('UTC')", "SELECT a FROM m \u0130", "SELECT f\u0130ll(a) FROM m",
+		"SELECT \u212a(a) FROM m", "SELECT a::\u0130nteger FROM m", "SELECT a::fl\u00d6at FROM m",
+		"CREATE CONTINUOUS QUERY q ON d BEGIN SELECT mean(v) INTO m FROM c/*x*/END", "CREATE CONTINUOUS QUERY q ON d BEGIN SELECT mean(v) INTO m FROM c -- x\nEND",
+		"CREATE CONTINUOUS QUERY q ON d BEGIN SELECT mean(v) INTO m FROM c WHERE a = 1 END", "CREATE CONTINUOUS QUERY q ON d BEGIN SELECT mean(v) INTO m FROM c GROUP BY host fill(none) END",
+		"CREATE CONTINUOUS QUERY q ON d BEGIN SELECT mean(v) INTO m FROM c LIMIT 1 END", "CREATE CONTINUOUS QUERY q ON d BEGIN SELECT mean(v) INTO m FROM c tz('UTC') END", "CREATE CONTINUOUS QUERY q ON d BEGIN SELECT mean(v) INTO m FROM c)",
+		"CREATE CONTINUOUS QUERY q ON d BEGIN SELECT mean(v) INTO m FROM (SELECT v FROM c) END", "CREATE CONTINUOUS QUERY q ON d BEGIN SELECT mean(v) INTO m FROM c GROUP BY time(1m),", "CREATE CONTINUOUS QUERY q ON d BEGIN SELECT mean(v) INTO m FROM c ORDER BY time END",
+		"SELECT a FROM m\r\nWHERE\rb = 1\r", "SELECT a\r\n,\r\nb FROM m", "SELECT 'a\r\nb' FROM m", "SELECT a FROM m WHERE b = 'x\ry'",
+	}
+	for _, d := range []int{1, 2, 10, 100, 500} {
+		out = append(out, "SELECT a FROM "+strings.Repeat("(SELECT a FROM ", d)+"m"+strings.Repeat(")", d))
+		out = append(out, "SELECT "+strings.Repeat("(", d)+"a"+strings.Repeat(")", d)+" FROM m")
+		out = append(out, "SELECT "+strings.Repeat("f(", d)+"a"+strings.Repeat(")", d)+" FROM m")
+		out = append(out, "SELECT "+strings.Repeat("-", d)+"a FROM m")
+		out = append(out, "SELECT a FROM m WHERE a = 1"+strings.Repeat(" AND a = 1", d))
+		out = append(out, strings.Repeat(";", d)+"SHOW USERS"+strings.Repeat(";", d))
+		out = append(out, "SELECT a"+strings.Repeat(", a", d)+" FROM m"+strings.Repeat(", m", d)+" GROUP BY a"+strings.Repeat(", a", d))
+		out = append(out, "SHOW TAG VALUES WITH KEY IN (a"+strings.Repeat(", a", d)+")")
+		out = append(out, "SELECT a FROM m"+strings.Repeat(" ", d)+strings.Repeat("/* c */", d)+"WHERE a = 1")
+	}
+	return out
+}
+
 func newSgen(r *rand.Rand) *sgen { return &sgen{r: r, valid: true} }
 
 // genStmtText returns a random statement of a random kind.
@@ -96,9 +122,28 @@ func genStmtCases(r *rand.Rand, n int, emit func(text string, params map[string]
 	for _, s := range pendingCorners {
 		emit(s, none, true)
 	}
+	for _, s := range deepCorners() {
+		emit(s, none, false)
+	}
 	allSubsets(r, func(text string, valid bool) { emit(text, none, valid) })
 	for i := 0; i < n; i++ {
 		g := newSgen(r)
+		if r.Intn(400) == 0 { // deep nesting: subqueries, parentheses, calls
+			d := 5 + r.Intn(60)
+			var text string
+			switch r.Intn(4) {
+			case 0:
+				text = "SELECT a FROM " + strings.Repeat("(SELECT a FROM ", d) + "m" + strings.Repeat(")", d-r.Intn(2))
+			case 1:
+				text = "SELECT " + strings.Repeat("(", d) + "a" + strings.Repeat(")", d-r.Intn(2)) + " FROM m"
+			case 2:
+				text = "SELECT a FROM m WHERE " + strings.Repeat("f(", d) + "a" + strings.Repeat(")", d) + " > " + strings.Repeat("-", d%7) + "1"
+			default:
+				text = "EXPLAIN SELECT a FROM m WHERE a = 1" + strings.Repeat(" AND a = 1 OR b < 2 * 3", d)
+			}
+			emit(text, none, false)
+			continue
+		}
 		switch x := r.Intn(100); {
 		case x < 3:
 			emit(randLexText(r, false), none, false)
@@ -137,6 +182,9 @@ func genParseQuery(r *rand.Rand, n int, emit func(args ...string)) {
 	for _, s := range []string{"", ";", ";;", " ; ", "SELECT * FROM m", "SELECT * FROM m;", ";SELECT * FROM m", "SELECT * FROM m; SELECT * FROM n", "SELECT * FROM m SELECT * FROM n",
 		"SELECT * FROM m;;SELECT * FROM n;", "SHOW DATABASES; x", "SHOW DATABASES x", "SHOW DATABASES -- c\n; SHOW USERS", "SHOW DATABASES /* c */ SHOW USERS", "SHOW DATABASES;\x00SHOW USERS", "DROP DATABASE d; DROP DATABASE",
 		"SELECT * FROM m LIMIT 1; DELETE FROM m", "SELECT * FROM m LIMIT; DELETE FROM m", "SHOW STATS FOR 'a';SHOW STATS FOR 'b'"} {
+		emit(stmtCase(s, none, false)...)
+	}
+	for _, s := range deepCorners() {
 		emit(stmtCase(s, none, false)...)
 	}
 	for i := 0; i < n; i++ {
